@@ -19,4 +19,5 @@ def rules(ctx, tier):
         lambda: mutation.rule_mut(ctx),
         lambda: sidops.rule_queryroute(ctx),
         lambda: sidops.rule_ret3(ctx),
+        lambda: search.rule_narrow(ctx),
     ]
